@@ -288,6 +288,8 @@ package bkl
 // ------------------------------------------------------------------------------------------------- parser.go (output side)
 
 //@ func Parser.outputDocument(p, doc) (res, err)
+//@   property C19
+//@   modifies nothing
 //@   uses appNil, snocApp, appAssoc
 //@   ensures (=> (not (isErr err))
 //@              (exists ((h (Array Int Val)) (ds RLst))
@@ -354,16 +356,24 @@ package bkl
 // measure: (1002 - depth, rank of the function inside one depth level); process1 increments depth and refuses depth > 1000
 
 //@ func process1(obj, mergeFrom, mergeFromDocs, depth) (res, err)
+//@   inplace obj
+//@   property C10
 //@   decreases (- 1002 depth) 0
 //@ func process1Map(obj, mergeFrom, mergeFromDocs, depth) (res, err)
+//@   inplace obj
+//@   property C10
 //@   requires ((_ is VMap) obj)
 //@   decreases (- 1002 depth) 5
 //@ func process1MapMerge(obj, mergeFrom, mergeFromDocs, v, depth) (res, err)
+//@   inplace obj
+//@   property C10
 //@   requires ((_ is VMap) obj)
 //@   decreases (- 1002 depth) 1
 //@ func process1MapReplace(obj, mergeFrom, mergeFromDocs, v, depth) (res, err)
 //@   decreases (- 1002 depth) 1
 //@ func process1List(obj, mergeFrom, mergeFromDocs, depth) (res, err)
+//@   inplace obj
+//@   property C10
 //@   decreases (- 1002 depth) 5
 //@ func process1ListReplace(obj, mergeFrom, mergeFromDocs, m, depth) (res, err)
 //@   decreases (- 1002 depth) 1
@@ -402,7 +412,63 @@ package bkl
 //@ func getPath(obj, parts) (res, err)
 //@   decreases (sllen parts)
 
-//@ func get(doc, docs, m) (res, err)
-//@   decreases (rank m) 1
 //@ func getCross(docs, conf) (res, err)
+//@   borrowed
 //@   decreases (rank conf) 0
+
+// ------------------------------------------------------------------------------------------------- ownership / frame (C02, C10, C19)
+// modes: consumes (callee may mutate/embed; caller gives it up), inplace (evaluated in place: process1's documented
+// behaviour, allowed on referenced data but a modification of whatever holds it), mutates (in/out container),
+// borrowed (results alias stored documents), fresh (results share nothing), modifies (struct fields written).
+
+//@ func get(doc, docs, m) (res, err)
+//@   borrowed
+//@   decreases (rank m) 1
+//@ func getPathFromString(obj, docs, path) (res, err)
+//@   borrowed
+//@ func getPathFromList(obj, docs, path) (res, err)
+//@   borrowed
+//@ func getCrossDoc(docs, pat) (res, err)
+//@   borrowed
+//@ func getWithVar(doc, docs, ec, m) (res, err)
+//@   borrowed
+
+//@ func process1ListMerge(obj, mergeFrom, mergeFromDocs, m, depth) (res, err)
+//@   property C10
+//@   consumes obj
+
+//@ func mergeDocs(doc, patch) (err)
+//@   property C02
+//@   modifies Document.Data[doc], Document.Parents[patch]
+
+//@ func Parser.MergeDocument(p, patch) (err)
+//@   property C02
+//@   modifies Parser.docs, Document.Data, Document.Parents
+//@ func Parser.mergePatchMatch(p, patch) (matched, err)
+//@   property C02
+//@   modifies Parser.docs, Document.Data, Document.Parents
+//@ func Parser.mergeFile(p, f) (err)
+//@   property C02
+//@   modifies Parser.docs, Document.Data, Document.Parents
+//@ func Parser.MergeFile(p, path) (err)
+//@   property C02
+//@   modifies Parser.docs, Document.Data, Document.Parents
+//@ func Parser.MergeFileLayers(p, path) (err)
+//@   property C02
+//@   modifies Parser.docs, Document.Data, Document.Parents
+
+//@ func Parser.Output(p, format) (out, err)
+//@   property C19
+//@   modifies nothing
+//@ func Parser.OutputDocuments(p) (res, err)
+//@   property C19
+//@   modifies nothing
+//@ func Parser.OutputToWriter(p, fh, format) (err)
+//@   property C19
+//@   modifies nothing
+//@ func Parser.OutputToFile(p, path, format) (err)
+//@   property C19
+//@   modifies nothing
+//@ func Parser.Documents(p) (res)
+//@   property C19
+//@   modifies nothing
